@@ -620,6 +620,10 @@ C20_SPECIAL = [
     ("copy_clone_generic", "Copy, Clone", "pub enum X<T> { A(::core::marker::PhantomData<T>), B(*const T), C(fn(T) -> T) }"),
     ("impl_ops_generic_self", "Add, AddAssign", "impl<T: ::core::clone::Clone> ::core::ops::Add<&G<T>> for &G<T> where G<T>: ::core::clone::Clone { type Output = G<T>; fn add(self, _r: &G<T>) -> G<T> { self.clone() } }\n#[derive(Clone)] pub struct G<T>(pub T);"),
     ("impl_ops_where_self", "Sub", "impl ::core::ops::Sub<Y> for Y where Self: ::core::clone::Clone { type Output = Self; fn sub(self, _r: Y) -> Self { self } }\n#[derive(Clone)] pub struct Y(pub u8);"),
+    # Clone next to a Copy whose explicit bound Clone does not have (items with const- / lifetime-only parameters)
+    ("clone_next_to_bounded_copy_const", "Clone, Copy(bound([u8; N]: Small))", "pub struct X<const N: usize>(pub [u8; N]);\npub trait Small {}\nimpl Small for [u8; 1] {}"),
+    ("clone_next_to_bounded_copy_lifetime", "Copy(bound(&'a str: Plain)), Clone", "pub enum X<'a> { A(&'a str), B }\npub trait Plain {}\nimpl Plain for &'static str {}"),
+    ("clone_next_to_bounded_copy_type", "Clone, Copy(bound(T: Small + ::core::marker::Copy))", "pub struct X<T>(pub T, pub u8);\npub trait Small {}\nimpl Small for u8 {}"),
     # literals of other kinds as default values; const parameters in EXPRESSION position of a field type (array length, braced const argument)
     ("default_bytes_slice", "Default", "pub struct X { #[default(b\"ab\")] pub a: &'static [u8], #[default(br\"c\")] pub b: &'static [u8], #[default(*b\"xy\")] pub c: [u8; 2], #[default(1.5e1)] pub d: f64, #[default(7u8)] pub e: u8, #[default('x')] pub f: char }"),
     ("const_in_expr_position", "Default, Clone, Debug, PartialEq", "pub struct X<const N: usize> { pub a: [u8; N], pub b: Wn<{ N }>, pub c: Wn<N> }\n"
